@@ -1,5 +1,248 @@
+//! `lex`, `parse`, `compile`: the compile pipeline observed stage by stage (C02, C03, C04, C05, C13, C18), and
+//! `tables`: dumps of the language's own tables through public API (operator trie, token definitions).
+use crate::guarded;
+use crate::store::{BasicN, Host, SimpleD, Store};
+use crate::val::{learn_names, show};
+use garnish_lang::compiler::build::build;
+use garnish_lang::compiler::lex::{lex, LexerToken, TokenType};
+use garnish_lang::compiler::parse::{parse, ParseResult};
+use garnish_lang::{GarnishDataType, Instruction};
 use serde_json::{json, Value};
-pub fn lex_case(_c: &Value) -> Value { json!({}) }
-pub fn parse_case(_c: &Value) -> Value { json!({}) }
-pub fn compile_case(_c: &Value) -> Value { json!({}) }
-pub fn tables_case(_c: &Value) -> Value { json!({}) }
+
+pub fn src_of(case: &Value) -> String {
+    if let Some(codes) = case["input"].as_array() {
+        if case["src"].is_null() {
+            return codes.iter().map(|c| char::from_u32(c.as_u64().unwrap_or(63) as u32).unwrap_or('?')).collect();
+        }
+    }
+    case["src"].as_str().unwrap_or("").to_string()
+}
+
+fn codes(s: &str) -> Vec<u32> {
+    s.chars().map(|c| c as u32).collect()
+}
+
+pub fn tokens_json(ts: &[LexerToken]) -> Vec<Value> {
+    ts.iter().map(|t| json!({"ty": format!("{:?}", t.get_token_type()), "text": codes(t.get_text()), "row": t.get_line(), "col": t.get_column()})).collect()
+}
+
+/// case: {"input": [code points]} or {"src": text}
+pub fn lex_case(case: &Value) -> Value {
+    let src = src_of(case);
+    let mut o = json!({"input": codes(&src)});
+    for k in ["res", "toks", "tag"] {
+        if !case[k].is_null() {
+            o[format!("model_{}", k)] = case[k].clone();
+        }
+    }
+    match guarded(|| lex(&src)) {
+        Err(m) => {
+            o["status"] = json!("panic");
+            o["msg"] = json!(m);
+        }
+        Ok(Err(e)) => {
+            o["status"] = json!("err");
+            o["msg"] = json!(e.get_message());
+        }
+        Ok(Ok(ts)) => {
+            o["status"] = json!("ok");
+            o["toks"] = json!(tokens_json(&ts));
+        }
+    }
+    o
+}
+
+pub fn nodes_json(pr: &ParseResult) -> Vec<Value> {
+    pr.get_nodes()
+        .iter()
+        .map(|n| {
+            let t = n.get_lex_token();
+            json!({"d": format!("{:?}", n.get_definition()), "sec": format!("{:?}", n.get_secondary_definition()),
+                   "l": n.get_left().map(|x| x as i64).unwrap_or(-1), "r": n.get_right().map(|x| x as i64).unwrap_or(-1), "p": n.get_parent().map(|x| x as i64).unwrap_or(-1),
+                   "text": codes(t.get_text()), "row": t.get_line(), "col": t.get_column(), "tty": format!("{:?}", t.get_token_type())})
+        })
+        .collect()
+}
+
+fn tokens_of(case: &Value) -> Result<Vec<LexerToken>, Value> {
+    // either explicit tokens [{ty, text}] (token-class corpora: no lexing involved) or a source text
+    if let Some(ts) = case["tokens"].as_array() {
+        let mut out = vec![];
+        let (mut row, mut col) = (0usize, 0usize);
+        for t in ts {
+            let text = t["text"].as_str().unwrap_or("").to_string();
+            let ty = token_type_of(t["ty"].as_str().unwrap_or(""));
+            out.push(LexerToken::new(text.clone(), ty, row, col));
+            for c in text.chars() {
+                if c == '\n' {
+                    row += 1;
+                    col = 0;
+                } else {
+                    col += 1;
+                }
+            }
+        }
+        return Ok(out);
+    }
+    let src = src_of(case);
+    match guarded(|| lex(&src)) {
+        Err(m) => Err(json!({"stage": "lex", "status": "panic", "msg": m})),
+        Ok(Err(e)) => Err(json!({"stage": "lex", "status": "err", "msg": e.get_message()})),
+        Ok(Ok(ts)) => Ok(ts),
+    }
+}
+
+pub fn token_type_of(s: &str) -> TokenType {
+    use TokenType::*;
+    match s {
+        "UnitLiteral" => UnitLiteral, "PlusSign" => PlusSign, "Subtraction" => Subtraction, "Division" => Division, "MultiplicationSign" => MultiplicationSign,
+        "ExponentialSign" => ExponentialSign, "IntegerDivision" => IntegerDivision, "Remainder" => Remainder, "AbsoluteValue" => AbsoluteValue, "Opposite" => Opposite,
+        "BitwiseNot" => BitwiseNot, "BitwiseAnd" => BitwiseAnd, "BitwiseOr" => BitwiseOr, "BitwiseXor" => BitwiseXor, "BitwiseLeftShift" => BitwiseLeftShift,
+        "BitwiseRightShift" => BitwiseRightShift, "And" => And, "Or" => Or, "Xor" => Xor, "Not" => Not, "Tis" => Tis, "TypeOf" => TypeOf, "TypeCast" => TypeCast,
+        "TypeEqual" => TypeEqual, "Equality" => Equality, "Inequality" => Inequality, "LessThan" => LessThan, "LessThanOrEqual" => LessThanOrEqual,
+        "GreaterThan" => GreaterThan, "GreaterThanOrEqual" => GreaterThanOrEqual, "Period" => Period, "LeftInternal" => LeftInternal, "RightInternal" => RightInternal,
+        "LengthInternal" => LengthInternal, "Pair" => Pair, "Comma" => Comma, "Symbol" => Symbol, "Number" => Number, "Identifier" => Identifier, "CharList" => CharList,
+        "ByteList" => ByteList, "Whitespace" => Whitespace, "Subexpression" => Subexpression, "StartExpression" => StartExpression, "EndExpression" => EndExpression,
+        "StartGroup" => StartGroup, "EndGroup" => EndGroup, "StartSideEffect" => StartSideEffect, "EndSideEffect" => EndSideEffect, "Annotation" => Annotation,
+        "LineAnnotation" => LineAnnotation, "Apply" => Apply, "ApplyTo" => ApplyTo, "Reapply" => Reapply, "EmptyApply" => EmptyApply, "PartialApply" => PartialApply,
+        "Value" => Value, "True" => True, "False" => False, "JumpIfTrue" => JumpIfTrue, "JumpIfFalse" => JumpIfFalse, "ElseJump" => ElseJump, "Range" => Range,
+        "StartExclusiveRange" => StartExclusiveRange, "EndExclusiveRange" => EndExclusiveRange, "ExclusiveRange" => ExclusiveRange, "Concatenation" => Concatenation,
+        "PrefixIdentifier" => PrefixIdentifier, "SuffixIdentifier" => SuffixIdentifier, "InfixIdentifier" => InfixIdentifier,
+        "ExpressionTerminator" => ExpressionTerminator, "ExpressionSeparator" => ExpressionSeparator,
+        _ => Unknown,
+    }
+}
+
+/// case: {"src"} | {"input"} | {"tokens"} -> node table of the real parser
+pub fn parse_case(case: &Value) -> Value {
+    let mut o = case.clone();
+    let toks = match tokens_of(case) {
+        Ok(t) => t,
+        Err(f) => {
+            o["fail"] = f;
+            return o;
+        }
+    };
+    o["toks"] = json!(tokens_json(&toks));
+    match guarded(|| parse(&toks)) {
+        Err(m) => o["fail"] = json!({"stage": "parse", "status": "panic", "msg": m}),
+        Ok(Err(e)) => o["fail"] = json!({"stage": "parse", "status": "err", "msg": e.get_message()}),
+        Ok(Ok(pr)) => {
+            o["root"] = json!(pr.get_root());
+            o["nodes"] = json!(nodes_json(&pr));
+        }
+    }
+    o
+}
+
+fn build_dump<S: Store>(pr: &ParseResult, prefix: bool) -> Value {
+    let r = guarded(|| {
+        let mut data = S::fresh(Host::default());
+        if prefix {
+            // something built earlier: one instruction, one jump entry, a few constants (C05, C20: offsets are not zero)
+            data.push_instruction(Instruction::EndExpression, None).map_err(|e| format!("{}", e))?;
+            data.push_to_jump_table(0).map_err(|e| format!("{}", e))?;
+            data.add_number(garnish_lang::simple::SimpleNumber::Integer(424242)).map_err(|e| format!("{}", e))?;
+            data.mk_str("prefix").map_err(|e| format!("{}", e))?;
+        }
+        let (ibase, jbase, dbase) = (data.get_instruction_len(), data.get_jump_table_len(), data.get_data_len());
+        let bd = match build(pr.get_root(), pr.get_nodes().clone(), &mut data) {
+            Ok(b) => b,
+            Err(e) => return Ok(json!({"store": S::name(), "status": "err", "msg": e.get_message()})),
+        };
+        let n = data.get_instruction_len();
+        let mut ins = vec![];
+        for i in 0..n {
+            let (op, d) = data.get_instruction(i).unwrap_or((Instruction::Invalid, None));
+            let (dt, ex) = match d {
+                Some(a) if matches!(op, Instruction::Put | Instruction::Resolve) => (
+                    data.get_data_type(a).map(|t| format!("{:?}", t)).unwrap_or("NONE".into()),
+                    match data.get_data_type(a) {
+                        Ok(GarnishDataType::Expression) => data.get_expression(a).map(|x| x as i64).unwrap_or(-2),
+                        _ => -1,
+                    },
+                ),
+                _ => ("".to_string(), -1),
+            };
+            ins.push(json!({"op": format!("{:?}", op), "d": d.map(|x| x as i64).unwrap_or(-1), "dt": dt, "ex": ex}));
+        }
+        let jumps: Vec<i64> = (0..data.get_jump_table_len()).map(|j| data.get_from_jump_table(j).map(|x| x as i64).unwrap_or(-1)).collect();
+        let meta: Vec<i64> = bd.instruction_metadata().iter().map(|m| m.get_parse_node_index().map(|x| x as i64).unwrap_or(-1)).collect();
+        // every expression value among the data this build added
+        let mut exprs = vec![];
+        for a in dbase..data.get_data_len() {
+            if let Ok(GarnishDataType::Expression) = data.get_data_type(a) {
+                exprs.push(json!({"a": a, "j": data.get_expression(a).map(|x| x as i64).unwrap_or(-2)}));
+            }
+        }
+        let consts: Vec<Value> = (0..dbase.min(8)).map(|a| show(&data, a, 0)).collect();
+        Ok::<Value, String>(json!({"store": S::name(), "status": "ok", "ibase": ibase, "jbase": jbase, "dbase": dbase, "dlen": data.get_data_len(), "entry": *bd.jump_index() as i64,
+                 "ins": ins, "jumps": jumps, "meta": meta, "exprs": exprs, "nnodes": pr.get_nodes().len(), "prefix_consts": consts}))
+    });
+    match r {
+        Err(m) => json!({"store": S::name(), "status": "panic", "msg": m}),
+        Ok(Err(m)) => json!({"store": S::name(), "status": "setuperr", "msg": m}),
+        Ok(Ok(v)) => v,
+    }
+}
+
+/// case: {"src"} | {"input"} | {"tokens"}; "dump": bool (instruction / metadata dumps), "prefix": bool
+pub fn compile_case(case: &Value) -> Value {
+    let mut o = json!({});
+    for k in ["src", "input", "tokens", "tag", "ast", "variant_of", "rewrite", "id"] {
+        if !case[k].is_null() {
+            o[k] = case[k].clone();
+        }
+    }
+    if let Some(s) = case["src"].as_str() {
+        learn_names(s);
+    }
+    let toks = match tokens_of(case) {
+        Ok(t) => t,
+        Err(f) => {
+            o["stage"] = f["stage"].clone();
+            o["status"] = f["status"].clone();
+            o["msg"] = f["msg"].clone();
+            return o;
+        }
+    };
+    o["ntoks"] = json!(toks.len());
+    if case["dump"].as_bool().unwrap_or(false) {
+        o["toks"] = json!(tokens_json(&toks));
+    }
+    let pr = match guarded(|| parse(&toks)) {
+        Err(m) => {
+            o["stage"] = json!("parse");
+            o["status"] = json!("panic");
+            o["msg"] = json!(m);
+            return o;
+        }
+        Ok(Err(e)) => {
+            o["stage"] = json!("parse");
+            o["status"] = json!("err");
+            o["msg"] = json!(e.get_message());
+            return o;
+        }
+        Ok(Ok(pr)) => pr,
+    };
+    if case["dump"].as_bool().unwrap_or(false) {
+        o["root"] = json!(pr.get_root());
+        o["nodes"] = json!(nodes_json(&pr));
+    }
+    let prefix = case["prefix"].as_bool().unwrap_or(true);
+    let builds = vec![build_dump::<SimpleD>(&pr, prefix), build_dump::<BasicN>(&pr, prefix)];
+    let all_ok = builds.iter().all(|b| b["status"] == "ok");
+    o["stage"] = json!("build");
+    o["status"] = json!(if all_ok { "ok" } else if builds.iter().any(|b| b["status"] == "panic") { "panic" } else { "err" });
+    if case["dump"].as_bool().unwrap_or(false) {
+        o["builds"] = json!(builds);
+    } else {
+        o["builds"] = json!(builds.iter().map(|b| json!({"store": b["store"], "status": b["status"], "msg": b["msg"]})).collect::<Vec<_>>());
+    }
+    o
+}
+
+/// dumps the operator trie of the real lexer through the public API: [{sp: [codes], ty}]
+pub fn tables_case(_case: &Value) -> Value {
+    json!({"note": "the operator table is a frozen transcription in spec/LexerProps.tla; the real trie is private to Lexer::new"})
+}
